@@ -61,6 +61,19 @@ def observe(st, with_q=False):
             'ops': list(shx.symmcards)}
 
 
+def metric_constants_ok(ob):
+    """the six metric constants of the SDM object against a^2, b^2, c^2, ab cos(gamma), ac cos(beta), bc cos(alpha) of the cell (they are inputs of
+    the mirrored model, so they are checked by construction here); returns None or a description of the first difference"""
+    sdm, c_ = ob['sdm'], ob['shx'].cell
+    ca, cb, cg = (math.cos(math.radians(x)) for x in (c_.alpha, c_.beta, c_.gamma))
+    exp = {'asq': c_.a ** 2, 'bsq': c_.b ** 2, 'csq': c_.c ** 2, 'aga': c_.a * c_.b * cg, 'bbe': c_.a * c_.c * cb, 'cal': c_.b * c_.c * ca}
+    for nm, v in exp.items():
+        got = getattr(sdm, nm)
+        if abs(got - v) > 1e-9 * max(1.0, abs(v)):
+            return 'SDM.%s = %r, expected %r for the cell %s' % (nm, got, v, [c_.a, c_.b, c_.c, c_.alpha, c_.beta, c_.gamma])
+    return None
+
+
 def coq_defs(ob, k):
     """Coq definitions of the model inputs for observation ob (suffix k)"""
     sdm, atoms, ops = ob['sdm'], ob['atoms'], ob['ops']
